@@ -244,3 +244,16 @@ Theorem C07_init_segment_carries_stream_configuration_av1 : forall c s a d,
   end = true.
 Proof. exact init_segment_carries_stream_configuration_av1. Qed.
 Print Assumptions C07_init_segment_carries_stream_configuration_av1.
+
+From Muxide Require Export Model.Codec Spec.Av1Syntax Spec.Vp9Syntax Proofs.Vp9Proofs.
+(* FINDING (KF-C07-3), kernel-checked against the VP9 uncompressed-header syntax (Spec/Vp9Syntax.v): the
+   crate's VP9 parser expects a frame to BEGIN with the sync code 49 83 42, which in the VP9 bitstream
+   FOLLOWS the first header byte (frame_marker, profile, show_existing_frame, frame_type, ...).  Hence for
+   EVERY conforming key-frame header and any continuation, the frame is declared invalid, no configuration
+   is extracted and it is not recognised as a key frame: no real VP9 stream can be muxed *)
+Theorem C07_vp9_parser_rejects_every_conforming_key_frame_refuted : forall h rest,
+  is_valid_vp9_frame (vp9_key_frame h rest) = false /\
+  extract_vp9_config (vp9_key_frame h rest) = None /\
+  is_vp9_keyframe (vp9_key_frame h rest) <> Vp9Key true.
+Proof. exact vp9_parser_rejects_every_conforming_key_frame. Qed.
+Print Assumptions C07_vp9_parser_rejects_every_conforming_key_frame_refuted.
